@@ -256,6 +256,11 @@ def r17b(ctx, repo: Repo, classes: List[ClassInfo], label: str = '') -> int:
 
 
 def run(ctx):
+    # the sampler flags live outside the state_dict (known findings below); a wrapper rebuilt
+    # with the same constructor arguments matches the checkpointed one only as long as nothing
+    # changes the flags behind the user's back: partial option updates keep the others (C11)
+    from .c11 import option_defaults_rule
+    option_defaults_rule(ctx, 'R17c')
     repo = ctx.repo
     classes = module_classes(repo)
     ctx.floor('C17', 'nn.Module subclasses in plinio.methods', len(classes), 40)
